@@ -773,3 +773,23 @@ def iter_chain(fn, operand, max_hops=16):
             break
         cur = src_of_operand(fn, cur.term["args"][0])
     return out
+
+
+CUTS = ("take", "skip", "step_by", "take_while", "skip_while", "nth", "last", "rev_take")
+
+
+def loop_cut(f, head):
+    """adaptors between the collection and the `for` loop at `head` that drop elements by position (take/skip/step_by/..):
+    with one of them the loop no longer visits every element of the batch.  [] when the loop walks the whole source."""
+    none_t, some_t, nb = loop_heads(f)[head]
+    t = f.term(nb)
+    if not t["args"]:
+        return []
+    return [n for n, _ in iter_chain(f, t["args"][0]) if n in CUTS]
+
+
+def whole_batch(ck, f, head, rid, key, what):
+    cut = loop_cut(f, head)
+    ck.check(not cut, rid, key, "%s is cut by %s before the loop sees it: the elements beyond the cut are never processed" % (what, cut),
+             f.where(f.term(loop_heads(f)[head][2])["ln"]), detail="loop over the whole batch")
+    return not cut
